@@ -173,6 +173,8 @@ pub enum Op {
   GroupByFlat(KeyF),
   // schedulers
   Delay(u64),
+  /// delay in microseconds (sub-millisecond delays)
+  DelayUs(u64),
   DelayAt(i64),
   DelaySubscription(u64),
   DelaySubscriptionAt(i64),
@@ -246,7 +248,7 @@ impl Op {
       Op::ConcatMap(_) => "concat_map",
       Op::Flatten(_) => "flatten",
       Op::GroupByFlat(_) => "group_by",
-      Op::Delay(_) => "delay",
+      Op::Delay(_) | Op::DelayUs(_) => "delay",
       Op::DelayAt(_) => "delay_at",
       Op::DelaySubscription(_) => "delay_subscription",
       Op::DelaySubscriptionAt(_) => "delay_subscription_at",
@@ -285,6 +287,7 @@ impl Op {
     matches!(
       self,
       Op::Delay(_)
+        | Op::DelayUs(_)
         | Op::DelayAt(_)
         | Op::DelaySubscription(_)
         | Op::DelaySubscriptionAt(_)
